@@ -69,6 +69,17 @@ def parseOut (s : String) : Option OutW :=
     else none
   | _ => none
 
+/-- `<out>` or `<out>*count`: `count` identical adapter writes in a row -/
+def parseOutN (s : String) : Option (List OutW) :=
+  match splitC s '*' with
+  | [o] => (parseOut o).map ([·])
+  | [o, n] => do
+    let k ← nat? n
+    if k = 0 then none else
+    let w ← parseOut o
+    pure (List.replicate k w)
+  | _ => none
+
 /-- line content `msgkey:lvl:site:tr` -/
 def parseLine (m l s t : String) : Option Line := do
   let tr ← nat? t
@@ -179,8 +190,8 @@ def handle (d : DS) (line : String) : DS × String :=
   | "p" :: _ :: _ :: toks => (d, pline toks)
   | "w" :: toks => wline d toks
   | "out" :: toks =>
-    match toks.mapM parseOut with
-    | some os => ({ d with outs := os.reverse ++ d.outs }, "ok")
+    match toks.mapM parseOutN with
+    | some os => ({ d with outs := os.flatten.reverse ++ d.outs }, "ok")
     | none => (d, "bad-op")
   | "meta" :: kvs =>
     let bad := kvs.filterMap fun kv =>
